@@ -129,7 +129,7 @@ static void run_input (MEMF *m, int route)
 int main (int argc, char **argv)
 {	int j, k, per ;
 	vh_init (argc, argv, "c03_hostile_input", "C03") ;
-	vh_case_secs = 8 ;
+	vh_case_secs = 20 ;
 	vh_enum_formats () ;
 	{	uint64_t sv = vh_rs ; vh_srand (12345) ; build_corpus () ; vh_rs = sv ; }
 	per = vh_thorough ? 1500 : 100 ;
@@ -147,6 +147,20 @@ int main (int argc, char **argv)
 		if (k % 50 == 7) vh_sample ("%s ch=%d: %s -> %ld bytes via %s", cur_fn, corpus [j].ch, desc, (long) m.len, route == 0 ? "virtual I/O" : route == 1 ? "descriptor" : "pipe") ;
 		run_input (&m, route) ;
 		mv_free (&m) ;
+		}
+	/* systematic chunk mutations on the metadata-rich corpus files: every marker in the first 1500 bytes x 16 mutations */
+	for (j = 0 ; j < ncorp ; j++) if (corpus [j].meta == 2 || (corpus [j].meta == 0 && corpus [j].ch == 1))
+	{	int mi, mk ;
+		for (mi = 0 ; mi < 60 ; mi++) for (mk = 0 ; mk < MUTATE_MARKER_KINDS ; mk++)
+		{	MEMF m ; char desc [200] ; int route = ((mi + mk) % 8 == 3) ? 2 : ((mi + mk) % 4 == 1) ? 1 : 0 ;
+			if (!vh_case ("%s@%s ch=%d meta=%d marker=%d mutation=%d", vh_fname (corpus [j].format), route == 0 ? "vio" : route == 1 ? "fd" : "pipe", corpus [j].ch, corpus [j].meta, mi, mk)) continue ;
+			if (!mutate_marker (&m, &corpus [j], mi, mk, 1500, desc, sizeof (desc))) continue ;
+			cur_fn = vh_fname (corpus [j].format) ;
+			vh_distinct (vh_fnv (vh_fnv (0, m.d, (size_t) m.len), &route, 4)) ;
+			if (vh_verbose) fprintf (stderr, "  input: %s\n", desc) ;
+			run_input (&m, route) ;
+			mv_free (&m) ;
+			}
 		}
 	return vh_finish () ;
 }
